@@ -110,6 +110,7 @@ type pmEnv struct {
 	// (index into reserved), and pages that lie in none of them
 	mapped    [][]uint64
 	stray     []uint64
+	guards    []*vlib.Guarded
 }
 
 // mappingVerdict checks "maps exactly the pages needed to cover the requested
@@ -170,13 +171,17 @@ func pmSetup(c pmCase) *pmEnv {
 		if pages == 0 {
 			pages = 1
 		}
-		mem, err := vlib.MapPages(pages)
+		// inaccessible pages directly before and after: the allocator's state must
+		// stay inside the region it asked for
+		g, err := vlib.NewGuarded(pages*4096, false)
 		if err != nil {
 			return 0, pmErrNoVirt
 		}
+		mem := g.Data
 		for i := range mem {
 			mem[i] = 0xA5
 		}
+		env.guards = append(env.guards, g)
 		env.reserved = append(env.reserved, mem)
 		env.mapped = append(env.mapped, nil)
 		return vlib.AddrOf(mem), nil
@@ -215,10 +220,10 @@ func (env *pmEnv) close() {
 	kfmt.SetOutputSink(nil)
 	// drop the slices that alias the host memory before unmapping it
 	bitmapAllocator = BitmapAllocator{}
-	for _, m := range env.reserved {
-		vlib.UnmapPages(m)
+	for _, g := range env.guards {
+		g.Free()
 	}
-	env.reserved = nil
+	env.guards, env.reserved = nil, nil
 	reserveRegionFn = vmm.EarlyReserveRegion
 	mapFn = vmm.Map
 	mm.SetFrameAllocator(nil)
